@@ -922,6 +922,29 @@ func regexNodes(n ast.Node, out *[]*ast.RegexNode) {
 	regexNodes(n.Next(), out)
 }
 
+// pathStrings adds the string literals of the path (they can be the subject of like_regex).
+func pathStrings(n ast.Node, out map[string]bool) {
+	if n == nil || reflect.ValueOf(n).IsNil() {
+		return
+	}
+	switch n := n.(type) {
+	case *ast.StringNode:
+		out[n.Text()] = true
+	case *ast.BinaryNode:
+		pathStrings(n.Left(), out)
+		pathStrings(n.Right(), out)
+	case *ast.UnaryNode:
+		pathStrings(n.Operand(), out)
+	case *ast.RegexNode:
+		pathStrings(n.Operand(), out)
+	case *ast.ArrayIndexNode:
+		for _, s := range n.Subscripts() {
+			pathStrings(s, out)
+		}
+	}
+	pathStrings(n.Next(), out)
+}
+
 var extraRegexStrings = []string{"number", "string", "boolean", "null", "array", "object", "true", "false", "date",
 	"time without time zone", "time with time zone", "timestamp without time zone", "timestamp with time zone"}
 
@@ -942,6 +965,7 @@ func regexOracle(p *path.Path, doc any, vars map[string]any, lits []string) [][]
 	for _, s := range extraRegexStrings {
 		pool[s] = true
 	}
+	pathStrings(p.Root(), pool)
 	strs := make([]string, 0, len(pool))
 	for s := range pool {
 		strs = append(strs, s)
